@@ -1,9 +1,9 @@
 #!/bin/bash
-# usage: tools/confirm_mutant.sh <ID> <n>
+# usage: tools/confirm_mutant.sh <ID> <n> [<n in seeded/>]
 # Confirms a seeded change in the scratch worktree /tmp/wt/<ID> (moved to /repo's current HEAD):
 #  with the patch: the repository's own tests pass and the demonstration fails; without it: the demonstration passes.
 # On success copies patch + demo into /verif/seeded/<ID>-<n>/ and writes confirm.json there.
-ID="$1"; N="$2"; WT=/tmp/wt/$ID; OUT=/tmp/wt/$ID-out
+ID="$1"; N="$2"; ON="${3:-$2}"; WT=/tmp/wt/$ID; OUT=/tmp/wt/$ID-out
 cd $WT || exit 2
 git reset -q --hard; git clean -fdq -e target
 git checkout -q --detach main || exit 2
@@ -30,7 +30,7 @@ run_demo; MUT_DEMO=$?
 git reset -q --hard; git clean -fdq -e target
 echo "$ID-$N at $HEAD: demo_without_patch_rc=$BASE_DEMO suite_with_patch_rc=$SUITE passed=$PASSED failed=$FAILED demo_with_patch_rc=$MUT_DEMO"
 if [ $BASE_DEMO -eq 0 ] && [ $SUITE -eq 0 ] && [ $MUT_DEMO -ne 0 ]; then
-  D=/verif/seeded/$ID-$N; mkdir -p $D
+  D=/verif/seeded/$ID-$ON; mkdir -p $D
   cp /tmp/wt/rebased-$ID-$N.diff $D/patch.diff; cp $DEMO $D/demo.$EXT
   cat > $D/confirm.json <<JSON
 {"repo_head": "$HEAD", "suite_with_patch": {"rc": $SUITE, "passed": $PASSED, "failed": $FAILED}, "demo_without_patch_rc": $BASE_DEMO, "demo_with_patch_rc": $MUT_DEMO,
